@@ -618,7 +618,8 @@ Proof.
     destruct (ar_step_ok _ _ _ _ I E1 NE) as (I1 & W1).
     destruct (IH _ _ _ I1 E2 F') as (I2 & W2). split; [exact I2|]. rewrite W2, W1.
     destruct o as [wo|p n]; cbn [wops_of].
-    + rewrite wrun_cons_fst. cbn [wrun]. destruct (wstep (a_w a) wo) as [w1 y]. reflexivity.
+    + rewrite wrun_cons_fst. replace (fst (wrun (a_w a) [wo])) with (fst (wstep (a_w a) wo)); [reflexivity|].
+      cbn [wrun]. destruct (wstep (a_w a) wo) as [w1 y]. reflexivity.
     + reflexivity.
 Qed.
 
